@@ -157,31 +157,41 @@ Definition findSegStartTime (r : rep) (loopMS : Z) (c : tcfg) (nr : Z) : res Z :
   | Some s => Ok (wrapTime + st s)
   end.
 
-(** the loop of calcStatusCode over the configured patterns; 0 = no special code *)
-Fixpoint statusLoop (r : rep) (loopMS : Z) (c : tcfg) (repID : string) (startTime repTs nr : Z)
+(** the loop of calcStatusCode over the configured patterns; 0 = no special code.
+    [fx = false] is the code as it is.  [fx = true] is the code with
+    proposed_fixes/C14-statuscode-cycle-start.diff applied (the cycle start is moved to wall-clock
+    time, an empty timeline counts as "no segment has ended", the start number is added); the
+    harness tells by a probe request which of the two the implementation under test is. *)
+Fixpoint statusLoop (fx : bool) (r : rep) (loopMS : Z) (c : tcfg) (repID : string) (startTime repTs nr : Z)
          (l : list sscode) : res Z :=
   match l with
   | [] => Ok 0
   | ss :: rest =>
-    if negb (repInReps repID (sc_reps ss)) then statusLoop r loopMS c repID startTime repTs nr rest else
+    if negb (repInReps repID (sc_reps ss)) then statusLoop fx r loopMS c repID startTime repTs nr rest else
     let cycle := sc_cycle ss in
     let cycleInTimescale := i64 (cycle * repTs) in
     if cycleInTimescale =? 0 then Panic "calcStatusCode: integer divide by zero" else
     let nrWraps := Z.quot startTime cycleInTimescale in
     let wrapStartS := i64 (nrWraps * cycle) in
-    let firstNr0 := if nrWraps >? 0 then findLastSegNr r loopMS c (i64 (wrapStartS * 1000)) + 1 else startNr c in
+    let firstNr0 :=
+      if nrWraps >? 0 then
+        if fx then
+          let lastNr := findLastSegNr r loopMS c (i64 ((startS c + wrapStartS) * 1000)) in
+          startNr c + (if lastNr <? 0 then -1 else lastNr) + 1
+        else findLastSegNr r loopMS c (i64 (wrapStartS * 1000)) + 1
+      else startNr c in
     do segTime <- findSegStartTime r loopMS c firstNr0;
     let firstNr := if segTime <? i64 (wrapStartS * repTs) then firstNr0 + 1 else firstNr0 in
     let idx := nr - firstNr in
     if idx <? 0 then Err "segment is before first segment"
     else if idx =? sc_rsq ss then Ok (sc_code ss)
-    else statusLoop r loopMS c repID startTime repTs nr rest
+    else statusLoop fx r loopMS c repID startTime repTs nr rest
   end.
 
 (** calcStatusCode after the two lookups; [r] is segMeta.rep (the reference representation for audio) *)
-Definition calcStatusCode (r : rep) (loopMS : Z) (c : tcfg) (codes : list sscode) (repID : string)
+Definition calcStatusCode (fx : bool) (r : rep) (loopMS : Z) (c : tcfg) (codes : list sscode) (repID : string)
            (m : segmeta) : res Z :=
-  statusLoop r loopMS c repID (i64 (newTime m)) (mtimescale m) (newNr m) codes.
+  statusLoop fx r loopMS c repID (i64 (newTime m)) (mtimescale m) (newNr m) codes.
 
 (** findRefSegMetaFromTime: the reference segment that contains the audio time *)
 Definition refMetaFromTime (ref : rep) (c : tcfg) (audioTs sampleDur time nowMS : Z) : outcome segmeta :=
@@ -234,7 +244,7 @@ Definition codeValid (ss : sscode) : bool :=
   (0 <? sc_cycle ss) && (sc_cycle ss <=? 2147483647) && (0 <=? sc_rsq ss) &&
   (400 <=? sc_code ss) && (sc_code ss <=? 599).
 
-Definition segAnswer (r : rep) (loopMS : Z) (c : tcfg) (codes : list sscode) (repID : string)
+Definition segAnswer (fx : bool) (r : rep) (loopMS : Z) (c : tcfg) (codes : list sscode) (repID : string)
            (audio : option (Z * Z)) (mode : addressing) (segID nowMS base : Z) : answer :=
   if negb (forallb codeValid codes) then AStatus 400 else
   if nowMS <? startS c * 1000 then AStatus 425 else
@@ -243,7 +253,7 @@ Definition segAnswer (r : rep) (loopMS : Z) (c : tcfg) (codes : list sscode) (re
   | _ =>
     match findSegMeta r loopMS c audio mode segID nowMS with
     | TOk m =>
-      match calcStatusCode r loopMS c codes repID m with
+      match calcStatusCode fx r loopMS c codes repID m with
       | Ok code => if code =? 0 then AStatus base else AStatus code
       | Err _ => AStatus 500
       | Panic s => APanic s
